@@ -42,7 +42,7 @@ class _Subst:
         self.mod = sut.binning()
         self.orig = self.mod.deterministic_proba
 
-        def fake(_s, _self=self):
+        def fake(*_args, _self=self, **_kwargs):  # whatever signature the real function has (now or after a refactoring)
             _self.calls += 1
             return _self.k / GRID
 
@@ -231,6 +231,21 @@ def _two_group(j16, salt):
     return ev
 
 
+def _two_group_big(j16, salt):
+    """T = 2^33 with INTEGER weights: the boundary sits at grid coordinate j16/2 exactly as in _two_group, but the total is
+    above 2^32 (a position must not depend on the magnitude of the weights)"""
+    key = ("big", j16, salt)
+    ev = _EV_CACHE.get(key)
+    if ev is None:
+        prog = M.program("rampbig", M.ret([(M.lit_str("lo"), str(j16)), (M.lit_str("hi"), str((1 << 33) - j16))]), salt=salt, splitters=["uid"])
+        res = sut.compile_text(M.render(prog))
+        if res[0] != "ok":
+            raise RuntimeError("ramp does not compile: %s %s" % res[1:])
+        ev = res[1]
+        _EV_CACHE[key] = ev
+    return ev
+
+
 def locate(uid, salt=None):
     """black-box: smallest j with unit in group 'lo' when the boundary sits at grid point j; k = j - 1"""
     def in_lo(j):
@@ -272,6 +287,11 @@ def judge_b(case):
         got = _two_group(j16, salt)(uid=uid)
         if got != want:
             viol.append("path B: uid=%r located at grid point %d; %s must give %r, got %r" % (uid, k, why, want, got))
+        if 0 < j16 < (1 << 33):
+            got = _two_group_big(j16, salt)(uid=uid)
+            if got != want:
+                viol.append("path B: uid=%r located at grid point %d; %s must give %r also when the same shares are written with a "
+                            "total of 2^33 (integer weights %d : %d), got %r" % (uid, k, why, want, j16, (1 << 33) - j16, got))
     if k == 0:
         tags.append("pathB:u=0")
     if k == GRID - 1:
@@ -358,6 +378,15 @@ def small_vectors():
                 yield {"ws": ws, "ks": _positions(ws, []), "via": "dsl"}
 
 
+def edge_magnitude_vectors():
+    """the smallest and largest expressible weights, alone and next to zeros (totals of 1e-9 .. 6.4e10)"""
+    for ws in (["0.000000001"], ["0", "0.000000001", "0"], ["0.000000001", "0.000000001"], ["0.000000001", "0", "0.000000002"],
+               ["1000000000"] * 64, ["1000000000", "0.000000001"], ["0.000000001", "1000000000"], ["10.0", "1"], ["20.0", "250.00", "1000000000.0"],
+               ["100", "1.0", "10.50"], ["4294967296", "1"], ["8589934592", "8589934592"], ["3.0", "2.00", "105.0"]):
+        for via in ("direct", "dsl"):
+            yield {"ws": ws, "ks": _positions(ws, [1, GRID // 2, GRID - 2]), "via": via}
+
+
 def repeated_label_vectors():
     for ws, labels in [(["1", "1", "1"], ["A", "B", "A"]), (["2", "1", "1", "2"], ["c", "t", "h", "t"]), (["1", "1"], [1, 1.0]),
                        (["1", "2", "3"], ["A", "A", "B"]), (["1", "0", "1"], ["A", "B", "A"]), (["0.5", "1.5", "0.5"], [0, "z", 0.0])]:
@@ -377,6 +406,9 @@ def run(ctx, rec):
         if rec.violations:
             return
         runner.direct_run(ctx, rec, "repeated-labels", repeated_label_vectors(), judge_a)
+        if rec.violations:
+            return
+        runner.direct_run(ctx, rec, "edge-magnitudes", edge_magnitude_vectors(), judge_a)
         if rec.violations:
             return
         frozen = [{"uid": M.enc(u), "salt": None, "vectors": [["1", "1"], ["0", "1", "2.5"], ["3", "0", "0", "1"]],
